@@ -20,7 +20,9 @@
    All other events pass.  (`C04_declarative` below states exactly this, position by position.)
    The liveness half of the property text ("it does return", "never waits forever") is not a property of
    finite accepted histories.  Its model-level core is proved below as two ENABLEDNESS theorems
-   (C04_run_can_return, C04_waiter_released: in every reachable state the step in question is possible);
+   (C04_run_can_return, C04_waiter_released, C04_own_step_enabled, C04_spawned_can_begin,
+   C04_progress_modulo_busy: in every reachable state
+   the step in question is possible);
    they are NOT a fairness or termination proof - that every process does reach a terminal state, and that the
    scheduler eventually runs the enabled step, is covered only by the monitor-only test of checks/C04.py
    (quiescence event of the controlled-scheduling harness).
@@ -31,7 +33,7 @@
    is accepted only after do_spawn (waitGroup.Add) of i. *)
 From Coq Require Import List ZArith NArith Bool.
 From PC.Base Require Import Assoc.
-From PC.Sup Require Import Model Monitors Check LemC04l RelC04 EnC04.
+From PC.Sup Require Import Model Monitors Check LemC04l RelC04 EnC04 EnC04p EnC04b.
 Import ListNotations.
 
 (* for ALL configurations (any dependency graph, policies, exit_on_* settings, several triggers),
@@ -82,6 +84,55 @@ Theorem C04_waiter_released : forall cs ord evs s th i x k c j todo y,
   exists ok s', step s (th, EDepDone k ok) = Some s'.
 Proof. exact waiter_released. Qed.
 Print Assumptions C04_waiter_released.
+
+(* An instance goroutine never sits at a program counter from which the model offers no step although nothing
+   outside is being waited for.  In every reachable state s, for every begun instance i (goroutine th) that is
+   not `busy`, one of the goroutine's own events for its program counter (own_event (pc x) e: the table in
+   Sup/EnC04b.v, e.g. IPreStart/EStarted, IStateSet/ELaunch, IExited/EExitCode, ICodeWritten/ERestartDecision,
+   IEnding/EProcEnd, IInEnd/EState or EProcEnded, IRunRet/ERunReturned, IDoneReg/EDoneAdd or EInstDone,
+   IProjEnd/EDoneAdd, EExitTrigger or EInstExit, ITriggered/EShutdownCall, ILeaving/EInstExit,
+   IWgDone/ERegDel or EInstGone, IBackoff/EBackoffElapsed, IDeps []/ERunChecked, IBlocked/EDepDone) is accepted.
+   busy s th i x = true exactly in these cases:
+     (a) pc = IAlive and the command's exit has not been delivered (exited = None);
+     (b) pc = IBlocked k c j _ and the latch that condition c waits on is not released for instance j
+         (by C04_waiter_released's invariant it IS released once j has ended);
+     (d) pc = IWgDone, the instance is still registered and another thread holds the registry lock;
+     (e) pc = IGone;
+     (f) the goroutine is inside ShutDownProject / a stop execution (spc <> SIdle or dpc <> DNone; only a
+         triggering goroutine at ITriggered gets there) - its steps there are not covered;
+     (g) pc = IDeps (k :: _): the dependency lookup protocol (registry reads) is not covered.
+   A back-off (c) is never busy: EBackoffElapsed is always accepted. *)
+Theorem C04_own_step_enabled : forall cs ord evs s th i x,
+  accept (init cs ord) evs = Some s ->
+  get th (thinst s) = Some i -> get i (insts s) = Some x -> busy s th i x = false ->
+  exists e s', own_event (pc x) e = true /\ step s (th, e) = Some s'.
+Proof. exact own_step_enabled. Qed.
+Print Assumptions C04_own_step_enabled.
+
+(* A goroutine that runProcess has started (waitGroup.Add + go: stage 3) can always begin, on a thread
+   identifier that is not in use. *)
+Theorem C04_spawned_can_begin : forall cs ord evs s i c,
+  accept (init cs ord) evs = Some s -> get i (stage s) = Some (c, 3) ->
+  exists th s', get th (thinst s) = None /\ step s (th, EBegin i) = Some s'.
+Proof. exact spawned_can_begin. Qed.
+Print Assumptions C04_spawned_can_begin.
+
+(* Deadlock-freedom modulo "busy": in every reachable state in which no begun goroutine is busy (cases (a)-(g)
+   above; a goroutine that is gone with its waitGroup.Done() executed is allowed), either nothing of Run()'s
+   wait group is outstanding (wg_quiet s - then Run() can return by C04_run_can_return) or some step is
+   enabled: a spawned goroutine begins, or a goroutine takes one of its own events.  This is the frame of
+   "Run() never waits forever on a process that can no longer start"; NOT proved is the induction along the
+   dependency order that would discharge case (b) for a quiet supervisor (see notes/C04.md for what it needs). *)
+Theorem C04_progress_modulo_busy : forall cs ord evs s,
+  accept (init cs ord) evs = Some s ->
+  (forall th i x, get th (thinst s) = Some i -> get i (insts s) = Some x ->
+     busy s th i x = false \/ (pc x = IGone /\ pend (get_thread s th) <> Some RWgDone)) ->
+  wg_quiet s \/
+  exists th e s', step s (th, e) = Some s' /\
+    ((exists i, e = EBegin i /\ get th (thinst s) = None) \/
+     (exists i x, get th (thinst s) = Some i /\ get i (insts s) = Some x /\ own_event (pc x) e = true)).
+Proof. exact progress_modulo_busy. Qed.
+Print Assumptions C04_progress_modulo_busy.
 
 (* Regression for the former model looseness "EBegin without ESpawn": the 10-event history in which a
    goroutine that was never added to the wait group still had its command alive at Run()'s return is
@@ -170,4 +221,28 @@ Proof.
   assert (Ht : get 3%N (thinst s) = Some 2%N) by (subst s; vm_compute; reflexivity).
   destruct (C04_waiter_released _ _ _ _ _ _ _ _ _ _ _ _ E Ht Hx Hpc Hy Hd) as (ok & s' & Hs').
   exists s, ok, s'. split; [reflexivity|split; [rewrite Hx; cbn; now rewrite Hpc|exact Hs']].
+Qed.
+
+(* (3) in the final state of w_evs instance A (goroutine 2) is inside onProcessEnd after its status write: it is
+   not busy and proc_ended is enabled; (4) after the first 10 events of w_evs both goroutines are spawned and
+   none has begun: instance 1 can begin *)
+Example C04_own_step_enabled_ex :
+  exists s e s', accept (init w_conf false) w_evs = Some s /\ own_event (IInEnd SCompleted 0%Z true) e = true /\
+                 step s (2%N, e) = Some s'.
+Proof.
+  destruct (accept (init w_conf false) w_evs) as [s|] eqn:E; [|vm_compute in E; discriminate].
+  pose proof E as E0. vm_compute in E0. injection E0 as E0.
+  destruct (get 1%N (insts s)) as [x|] eqn:Hx; [|subst s; vm_compute in Hx; discriminate].
+  assert (Hpc : pc x = IInEnd SCompleted 0%Z true) by (subst s; vm_compute in Hx; injection Hx as <-; reflexivity).
+  assert (Ht : get 2%N (thinst s) = Some 1%N) by (subst s; vm_compute; reflexivity).
+  assert (Hb : busy s 2%N 1%N x = false) by (subst s; vm_compute in Hx; injection Hx as <-; vm_compute; reflexivity).
+  destruct (C04_own_step_enabled _ _ _ _ _ _ _ E Ht Hx Hb) as (e & s' & He & Hs'). rewrite Hpc in He. eauto 6.
+Qed.
+Example C04_spawned_can_begin_ex :
+  exists s th s', accept (init w_conf false) (firstn 10 w_evs) = Some s /\ step s (th, EBegin 1%N) = Some s'.
+Proof.
+  destruct (accept (init w_conf false) (firstn 10 w_evs)) as [s|] eqn:E; [|vm_compute in E; discriminate].
+  pose proof E as E0. vm_compute in E0. injection E0 as E0.
+  assert (Hst : get 1%N (stage s) = Some (1%N, 3)) by (subst s; vm_compute; reflexivity).
+  destruct (C04_spawned_can_begin _ _ _ _ _ _ E Hst) as (th & s' & _ & Hs'). eauto.
 Qed.
